@@ -36,10 +36,23 @@ FNS = [
     ("shift", "tea-map/src/lib.rs", "MapBasic", {"n": "Int", "value": "Elem"}),
     ("vclip", "tea-map/src/valid_iter.rs", "MapValidBasic", {"lower": "Elem", "upper": "Elem"}),
     ("fill", "tea-map/src/valid_iter.rs", "MapValidBasic", {"value": "Elem"}),
+    ("ffill_mask", "tea-map/src/valid_iter.rs", "MapValidBasic", {"mask_func": "Mask", "value": ("opt", "Elem")}),
+    ("ffill", "tea-map/src/valid_iter.rs", "MapValidBasic", {"value": ("opt", "Elem")}),
+    ("bfill_mask", "tea-map/src/valid_iter.rs", "MapValidBasic", {"mask_func": "Mask", "value": ("opt", "Elem")}),
+    ("bfill", "tea-map/src/valid_iter.rs", "MapValidBasic", {"value": ("opt", "Elem")}),
     ("vshift", "tea-map/src/valid_iter.rs", "MapValidBasic", {"n": "Int", "value": ("opt", "Elem")}),
     ("vdiff", "tea-map/src/vec_map.rs", "MapValidVec", {"n": "Int", "value": ("opt", "Elem")}),
     ("vpct_change", "tea-map/src/vec_map.rs", "MapValidVec", {"n": "Int"}),
 ]
+
+
+_ann = C.ann_type
+def ann_type(txt):
+    t = (txt or "").replace(" ", "")
+    if t == "Option<T>":
+        return "OptElem"
+    return _ann(txt)
+C.ann_type = ann_type
 
 
 def is_list(t):
@@ -60,12 +73,30 @@ def ty_lean(t):
         return "List (" + ty_lean(t[1]) + ")"
     if t == "Int":
         return "Int"
+    if t == "Mask":
+        return "Option Rat → Bool"
     if isinstance(t, tuple) and t[0] == "opt":
         return "Option (" + ty_lean(t[1]) + ")"
     return C.ty_lean(t)
 
 
 class MapEmit(C.Emit):
+    def stmts(self, ss, tail, env, outs, expect=None):
+        # bind state-mutating closures (`let f = move |v: T| { … last_valid = … }`) symbolically
+        ss2 = []
+        ss = [(("let", st[1], st[2], ("call", "__none_optelem", []), st[4])
+               if (st[0] == "let" and len(st) > 4 and (st[4] or "").replace(" ", "") == "Option<T>" and st[3] == ("path", "None"))
+               else st) for st in ss]
+        for st in ss:
+            if st[0] == "let" and st[3] is not None and st[3][0] == "closure" and st[1][0] == "pvar":
+                cl = st[3]
+                if len(cl[1]) != 1:
+                    raise Unsupported("stateful closure arity")
+                env[st[1][1]] = ("stclosure", cl, None)
+                continue
+            ss2.append(st)
+        return super().stmts(ss2, tail, env, outs, expect)
+
     def conj(self, c):
         if c[0] == "paren":
             return self.conj(c[1])
@@ -175,8 +206,25 @@ class MapEmit(C.Emit):
         if k == "matchg" or (k == "if" and self.guard_split(e[1], env)[0] and e[3] is not None):
             t, ty = self.effect(e, env, [], expect)
             return "(\n" + C.indent(t) + ")", ty
+        if k == "path" and e[1] == "T::is_none":
+            return "Option.isNone", "Mask"
+        if k == "closure" and env.get("__stateful_ok__"):
+            raise Unsupported("closure value")
         if k == "call":
             name, args = e[1], e[2]
+            if env.get(name) == "Mask" and len(args) == 1:
+                a, ta = self.ex0(args[0], env)
+                if ta != "Elem":
+                    raise Unsupported("mask argument")
+                return f"({C.lname(name)} {a})", "Bool"
+            if name == "__none_optelem":
+                return "none", ("opt", "Elem")
+            if re.fullmatch(r"(\w+::)*none", name) and not args:
+                return "none", "Elem"
+            if name == "Some" and len(args) == 1:
+                a, ta = self.ex0(args[0], env)
+                if ta == "Elem":
+                    return f"(some {a})", ("opt", "Elem")
             if name == "Box::new" and len(args) == 1:
                 return self.ex0(args[0], env, expect)
             if name == "TrustIter::new" and len(args) == 2:
@@ -211,9 +259,38 @@ class MapEmit(C.Emit):
                         raise Unsupported("fill_mask value")
                     # fill_mask(mask, value) = self.map(move |v| if mask(&v) { value.clone() } else { v })
                     return f"(xs.map fun v => if v.isNone then {v} else v)", ("list", "Elem")
+            if e[1] == ("path", "self") and name in getattr(self, "siblings", {}):
+                lean_name, ptys = self.siblings[name]
+                if len(args) != len(ptys):
+                    raise Unsupported("sibling call arity")
+                ats = []
+                for a, pt in zip(args, ptys):
+                    at, aty = self.ex0(a, env)
+                    if aty != pt:
+                        raise Unsupported(f"sibling call argument {aty} for {pt}")
+                    ats.append(at)
+                return f"({lean_name} xs" + "".join(" " + a for a in ats) + ")", ("list", "Elem")
             r, tr = self.ex0(e[1], env)
-            if name == "clone" and not args:
+            if name in ("clone", "as_ref", "into_iter", "collect_trusted_to_vec") and not args:
                 return r, tr
+            if name == "rev" and not args and is_list(tr):
+                return f"{r}.reverse", tr
+            if name == "map" and len(args) == 1 and args[0][0] == "path" and isinstance(env.get(args[0][1]), tuple) \
+                    and env[args[0][1]][0] == "stclosure" and is_list(tr):
+                # `.map(f)` with `f` a closure that mutates a captured cell: a state-passing map
+                _, cl, _ = env[args[0][1]]
+                bound = set(n for q in cl[1] for n in C.pat_names(q, []))
+                state = [o for o in C.assigned_outer(cl[2], frozenset(bound))
+                         if o in env and not (isinstance(env[o], tuple) and env[o][0] == "stclosure")]
+                if not state:
+                    raise Unsupported("stateful map without state")
+                env2 = dict(env)
+                ptxt = self.bind_pat(cl[1][0], tr[1], env2)
+                b, tb = self.stmts(cl[2][1], cl[2][2], env2, state, "Elem")
+                if tb not in ("Elem", "OptF"):
+                    raise Unsupported(f"stateful map closure result {tb}")
+                st = C.tuple_txt([C.lname(o) for o in state])
+                return (f"(mapSt (fun {st} {ptxt} =>\n{C.indent(b)})\n  {st} {r})"), ("list", "Elem")
             if name == "unwrap" and not args and tr == "Elem":
                 return f"({r}.getD 0)", "Rat"      # a panic on a null is not part of the generated semantics
             if name == "unsigned_abs" and not args and tr == "Int":
@@ -267,10 +344,27 @@ def fn_src(src, trait, name):
     if not m:
         raise Unsupported(f"trait {trait} not found")
     src = src[m.end():]
-    m = re.search(r"\bfn " + name + r"\s*(<[^{;]*?>)?\s*\(", src)
+    m = re.search(r"\bfn " + name + r"\b", src)
     if not m:
         raise Unsupported("function not found")
-    i = src.index("{", m.end())
+    # skip the generic parameter list (it may contain `Fn(&T) -> bool`)
+    j0 = m.end()
+    while src[j0].isspace():
+        j0 += 1
+    if src[j0] == "<":
+        depth, q = 0, j0
+        while True:
+            c = src[q]
+            if c == "<":
+                depth += 1
+            elif c == ">" and src[q - 1] != "-":
+                depth -= 1
+                if depth == 0:
+                    break
+            q += 1
+        j0 = q + 1
+    i = src.index("{", j0)
+    sig_start = j0
     depth, j = 0, i
     while j < len(src):
         if src[j] == "{":
@@ -280,7 +374,10 @@ def fn_src(src, trait, name):
             if depth == 0:
                 break
         j += 1
-    return src[m.start(): i], src[i: j + 1]
+    return src[sig_start: i], src[i: j + 1]
+
+
+SIBLINGS = {}
 
 
 def translate(name, rel, trait, params):
@@ -293,6 +390,7 @@ def translate(name, rel, trait, params):
         raise Unsupported(f"parameters {sig_params}")
     blk = C.P(C.tokenize(body_src)).block()
     em = MapEmit()
+    em.siblings = dict(SIBLINGS)
     em.allow_len = False
     env = dict(params)
     txt, ty = em.stmts(blk[1], blk[2], env, [], None)
@@ -305,6 +403,7 @@ def translate(name, rel, trait, params):
     L.append(C.indent(txt, 2))
     L.append("def parsed : Bool := true")
     L.append(f"end {name}")
+    SIBLINGS[name] = (f"{name}.run", list(params.values()))
     return "\n".join(L)
 
 
